@@ -614,8 +614,245 @@ def generators_to_lists(modules: dict, names=('functions', 'parsing', 'tools', '
     return done
 
 
+# ---------------------------------------------------------------------------------------------------------
+# equivalent spellings of small expressions and dict idioms
+# ---------------------------------------------------------------------------------------------------------
+
+class _Idioms(ast.NodeTransformer):
+    """`bytes([e])` -> `e.to_bytes(1, 'big')`;  statement `d.pop(k, None)` -> `if k in d: del d[k]`;
+    statement `d.setdefault(k, v)` -> `if k not in d: d[k] = v`;  `d.get(k)` / `d.get(k, None|False)` used only for
+    its truth (if / while / not / and / or / conditional-expression test) -> `k in d and d[k]`."""
+
+    def __init__(self):
+        self.count = 0
+
+    @staticmethod
+    def _simple(e) -> bool:
+        return simple_arg(e) or (isinstance(e, ast.Subscript) and simple_arg(e.value) and simple_arg(e.slice)) or \
+            isinstance(e, ast.JoinedStr) and all(isinstance(v, ast.Constant) or (isinstance(v, ast.FormattedValue) and simple_arg(v.value))
+                                                 for v in e.values)
+
+    def visit_Call(self, n):
+        self.generic_visit(n)
+        # sep.join(<generator>) materialises its argument anyway: the same as joining the list comprehension
+        if isinstance(n.func, ast.Attribute) and n.func.attr == 'join' and len(n.args) == 1 and not n.keywords and \
+                isinstance(n.args[0], ast.GeneratorExp) and isinstance(n.func.value, ast.Constant):
+            g = n.args[0]
+            n.args = [ast.copy_location(ast.ListComp(elt=g.elt, generators=g.generators), g)]
+            self.count += 1
+            return n
+        if isinstance(n.func, ast.Name) and n.func.id == 'bytes' and len(n.args) == 1 and not n.keywords and \
+                isinstance(n.args[0], (ast.List, ast.Tuple)) and len(n.args[0].elts) == 1 and \
+                not isinstance(n.args[0].elts[0], ast.Starred):
+            self.count += 1
+            return ast.copy_location(ast.Call(
+                func=ast.Attribute(value=n.args[0].elts[0], attr='to_bytes', ctx=ast.Load()),
+                args=[ast.Constant(value=1), ast.Constant(value='big')], keywords=[]), n)
+        return n
+
+    # ---- struct decodes of fixed-width big-endian integers -------------------------------------------
+    _FMT = {'B': (1, False), 'b': (1, True), 'H': (2, False), 'h': (2, True), 'I': (4, False), 'i': (4, True),
+            'L': (4, False), 'l': (4, True), 'Q': (8, False), 'q': (8, True)}
+
+    @classmethod
+    def _fields(cls, fmt):
+        if not isinstance(fmt, str) or fmt[:1] not in ('!', '>') or len(fmt) < 2:
+            return None
+        out = []
+        for ch in fmt[1:]:
+            if ch not in cls._FMT:
+                return None
+            out.append(cls._FMT[ch])
+        return out
+
+    @staticmethod
+    def _decode(src: ast.AST, signed: bool, width: int) -> ast.AST:
+        if signed and width == 1:
+            return ast.Call(func=ast.Name(id='bytes_to_int', ctx=ast.Load()), args=[src], keywords=[])
+        kws = [ast.keyword(arg='signed', value=ast.Constant(value=True))] if signed else []
+        return ast.Call(func=ast.Attribute(value=ast.Name(id='int', ctx=ast.Load()), attr='from_bytes', ctx=ast.Load()),
+                        args=[src, ast.Constant(value='big')], keywords=kws)
+
+    @staticmethod
+    def _is_unpack(c):
+        return isinstance(c, ast.Call) and _deco_name(c.func) == 'unpack' and len(c.args) == 2 and not c.keywords and \
+            isinstance(c.args[0], ast.Constant)
+
+    def visit_Subscript(self, n):
+        self.generic_visit(n)
+        # struct.unpack('!H', X)[0]  ->  int.from_bytes(X, 'big')
+        if self._is_unpack(n.value) and isinstance(n.slice, ast.Constant) and n.slice.value == 0:
+            f = self._fields(n.value.args[0].value)
+            if f is not None and len(f) == 1:
+                self.count += 1
+                return ast.copy_location(self._decode(n.value.args[1], f[0][1], f[0][0]), n)
+        return n
+
+    def visit_Assign(self, n):
+        self.generic_visit(n)
+        if len(n.targets) != 1 or not isinstance(n.targets[0], (ast.Tuple, ast.List)):
+            return n
+        tg = n.targets[0].elts
+        v = n.value
+        if any(isinstance(t, ast.Starred) for t in tg):
+            return n
+        read = v.args[1] if self._is_unpack(v) else v
+        is_read = isinstance(read, ast.Call) and isinstance(read.func, ast.Attribute) and read.func.attr == 'read' and \
+            len(read.args) == 1 and not read.keywords and isinstance(read.args[0], ast.Constant) and simple_arg(read.func.value)
+        if not is_read:
+            return n
+        total = read.args[0].value
+
+        def rd(k):
+            return ast.Call(func=copy.deepcopy(read.func), args=[ast.Constant(value=k)], keywords=[])
+        out = None
+        if self._is_unpack(v):
+            # a, b = struct.unpack('!BH', tape.read(3))  ->  one read and decode per field, in order
+            f = self._fields(v.args[0].value)
+            if f is not None and len(f) == len(tg) and sum(w for w, _ in f) == total:
+                out = [ast.Assign(targets=[t], value=self._decode(rd(w), sg, w)) for t, (w, sg) in zip(tg, f)]
+        elif total == len(tg):
+            # i, j = tape.read(2)  (bytes unpack to their integer values)  ->  one single-byte read each
+            out = [ast.Assign(targets=[t], value=ast.Subscript(value=rd(1), slice=ast.Constant(value=0), ctx=ast.Load()))
+                   for t in tg]
+        if out is None:
+            return n
+        self.count += 1
+        for x in out:
+            ast.copy_location(x, n)
+            ast.fix_missing_locations(x)
+        return out
+
+    def visit_Expr(self, n):
+        self.generic_visit(n)
+        c = n.value
+        if isinstance(c, ast.Call) and isinstance(c.func, ast.Attribute) and not c.keywords:
+            d = c.func.value
+            if c.func.attr == 'pop' and len(c.args) == 2 and isinstance(c.args[1], ast.Constant) and c.args[1].value is None \
+                    and self._simple(d) and self._simple(c.args[0]):
+                self.count += 1
+                k = c.args[0]
+                new = ast.If(test=ast.Compare(left=copy.deepcopy(k), ops=[ast.In()], comparators=[copy.deepcopy(d)]),
+                             body=[ast.Delete(targets=[ast.Subscript(value=copy.deepcopy(d), slice=copy.deepcopy(k), ctx=ast.Del())])],
+                             orelse=[])
+                return ast.fix_missing_locations(ast.copy_location(new, n))
+            if c.func.attr == 'setdefault' and len(c.args) == 2 and self._simple(d) and self._simple(c.args[0]):
+                self.count += 1
+                k = c.args[0]
+                new = ast.If(test=ast.Compare(left=copy.deepcopy(k), ops=[ast.NotIn()], comparators=[copy.deepcopy(d)]),
+                             body=[ast.Assign(targets=[ast.Subscript(value=copy.deepcopy(d), slice=copy.deepcopy(k), ctx=ast.Store())],
+                                              value=c.args[1])],
+                             orelse=[])
+                return ast.fix_missing_locations(ast.copy_location(new, n))
+        return n
+
+    def _truth(self, e):
+        """e stands in a position where only its truth matters."""
+        if isinstance(e, ast.Call) and isinstance(e.func, ast.Attribute) and e.func.attr == 'get' and not e.keywords and \
+                (len(e.args) == 1 or (len(e.args) == 2 and isinstance(e.args[1], ast.Constant) and
+                                      (e.args[1].value is None or e.args[1].value is False))) and \
+                self._simple(e.func.value) and self._simple(e.args[0]):
+            self.count += 1
+            d, k = e.func.value, e.args[0]
+            return ast.copy_location(ast.BoolOp(op=ast.And(), values=[
+                ast.Compare(left=copy.deepcopy(k), ops=[ast.In()], comparators=[copy.deepcopy(d)]),
+                ast.Subscript(value=copy.deepcopy(d), slice=copy.deepcopy(k), ctx=ast.Load())]), e)
+        if isinstance(e, ast.UnaryOp) and isinstance(e.op, ast.Not):
+            e.operand = self._truth(e.operand)
+        elif isinstance(e, ast.BoolOp):
+            e.values = [self._truth(v) for v in e.values]
+        return e
+
+    def visit_If(self, n):
+        self.generic_visit(n)
+        n.test = self._truth(n.test)
+        return n
+
+    def visit_While(self, n):
+        self.generic_visit(n)
+        n.test = self._truth(n.test)
+        return n
+
+    def visit_IfExp(self, n):
+        self.generic_visit(n)
+        n.test = self._truth(n.test)
+        return n
+
+
+def canonical_idioms(modules: dict, names=('functions', 'classes', 'parsing', 'tools')) -> int:
+    done = 0
+    for mn in names:
+        m = modules.get(mn)
+        if m is None:
+            continue
+        t = _Idioms()
+        t.visit(m.tree)
+        if t.count:
+            ast.fix_missing_locations(m.tree)
+        done += t.count
+    return done
+
+
+# ---------------------------------------------------------------------------------------------------------
+# functools.partial over module-level functions
+# ---------------------------------------------------------------------------------------------------------
+
+def specialise_partials(modules: dict, names=('functions', 'parsing', 'tools')) -> int:
+    """`NAME = partial(F, c1, .., k=c)` at module level, F a module-level function and the bound arguments literals,
+    becomes `def NAME(<remaining parameters>)` with F's body and the bound parameters replaced by the literals."""
+    done = 0
+    for mn in names:
+        m = modules.get(mn)
+        if m is None:
+            continue
+        defs = {s.name: s for s in m.tree.body if isinstance(s, ast.FunctionDef)}
+        out = []
+        for st in m.tree.body:
+            c = st.value if isinstance(st, ast.Assign) and len(st.targets) == 1 and isinstance(st.targets[0], ast.Name) else None
+            if not (isinstance(c, ast.Call) and _deco_name(c.func) == 'partial' and c.args and isinstance(c.args[0], ast.Name)
+                    and c.args[0].id in defs and all(isinstance(a, ast.Constant) for a in c.args[1:])
+                    and all(k.arg and isinstance(k.value, ast.Constant) for k in c.keywords)):
+                out.append(st)
+                continue
+            f = defs[c.args[0].id]
+            a = f.args
+            if a.vararg or a.kwarg or a.posonlyargs or f.decorator_list:
+                out.append(st)
+                continue
+            params = [x.arg for x in a.args]
+            bound = dict(zip(params, c.args[1:]))
+            for k in c.keywords:
+                bound[k.arg] = k.value
+            if any(k not in params + [x.arg for x in a.kwonlyargs] for k in bound) or \
+                    any(k in stored_names(f) for k in bound):
+                out.append(st)
+                continue
+            g = copy.deepcopy(f)
+            g.name = st.targets[0].id
+            npos = len(a.args)
+            keep_idx = [i for i, x in enumerate(a.args) if x.arg not in bound]
+            ndef = len(a.defaults)
+            g.args.defaults = [d for i, d in zip(range(npos - ndef, npos), copy.deepcopy(a.defaults)) if i in keep_idx]
+            g.args.args = [x for i, x in enumerate(g.args.args) if i in keep_idx]
+            kw = [(x, d) for x, d in zip(g.args.kwonlyargs, g.args.kw_defaults) if x.arg not in bound]
+            g.args.kwonlyargs = [x for x, _ in kw]
+            g.args.kw_defaults = [d for _, d in kw]
+            g.body = [Renamer(bound, {}).visit(b) for b in g.body]
+            ast.copy_location(g, st)
+            ast.fix_missing_locations(g)
+            out.append(g)
+            done += 1
+        m.tree.body = out
+        for name, f in defs.items():
+            if done and f in m.tree.body and _refs(modules, name, skip=[x for x in ast.walk(f)]) == 0 and name.startswith('_'):
+                m.tree.body.remove(f)
+    return done
+
+
 def run_all(modules: dict) -> dict:
     return {
+        'partials_specialised': specialise_partials(modules),
+        'idioms_canonicalised': canonical_idioms(modules),
         'static_classes_lifted': lift_static_classes(modules),
         'decorators_expanded': expand_decorators(modules),
         'context_managers_expanded': expand_context_managers(modules),
